@@ -759,9 +759,9 @@ func Discharge(q *Query, timeoutMs int, seed int) SolverResult {
 	// stage 4: nobody answered within the budget (timeout / unknown). Wall-clock budgets are sensitive to machine load
 	// (other checks, test suites running beside this one): before an obligation is reported as failed it gets one more
 	// attempt with four times the budget, sliced first, then full. A refutation (sat) is never retried.
-	if r.Status != "sat" && !noRetry && !q.NoRetry {
+	if r.Status != "sat" && !noRetry && !q.NoRetry && takeRetry() {
 		r4 := try(true, false, 4*timeoutMs, solverDefs)
-		if r4.Status != "unsat" {
+		if r4.Status != "unsat" && r4.Status != "sat" {
 			r4 = try(false, false, 4*timeoutMs, solverDefs)
 		}
 		if r4.Status == "unsat" {
@@ -813,6 +813,20 @@ var keepSMT = false
 
 // noRetry disables stage 4 of Discharge (debugging)
 var noRetry = false
+
+// retriesLeft: second attempts per run. A load glitch leaves a handful of obligations unanswered; a change that really breaks
+// the code can leave dozens (one per path) - those are not worth minutes of extra solver time each.
+var retriesLeft = 10
+
+func takeRetry() bool {
+	solverMu.Lock()
+	defer solverMu.Unlock()
+	if retriesLeft <= 0 {
+		return false
+	}
+	retriesLeft--
+	return true
+}
 
 // parseModel extracts (define-fun name () Sort value) entries with simple values.
 func parseModel(raw string) map[string]string {
